@@ -64,6 +64,7 @@ pub struct Kernel {
     pub fiemap_round_eof: bool,
     pub fiemap_past_eof: u64,
     pub fiemap_flagbits: u64,
+    pub fiemap_phys_packed: bool,
     pub getdents: String,
     pub wake_any: bool,
     // probability per scheduling decision that simulated time jumps to the earliest timed wait's deadline although other threads
@@ -2399,7 +2400,14 @@ impl Sup {
             for &(a, b, last) in &out {
                 let mut e = [0u8; 56];
                 e[0..8].copy_from_slice(&a.to_le_bytes());
-                e[8..16].copy_from_slice(&(0x1000_0000u64 + a).to_le_bytes());
+                // physical placement: as far apart as the logical offsets, or (fiemap_phys_packed) back to back on the device
+                // although the file has holes in between - what insert-range, aged or copy-on-write file systems produce
+                let phys = if self.cfg.kernel.fiemap_phys_packed {
+                    0x1000_0000u64 + exts.iter().take_while(|x| x.0 < a).map(|x| x.1 - x.0).sum::<u64>()
+                } else {
+                    0x1000_0000u64 + a
+                };
+                e[8..16].copy_from_slice(&phys.to_le_bytes());
                 e[16..24].copy_from_slice(&(b - a).to_le_bytes());
                 // informational flag bits real file systems set on extents that do hold data (unwritten-but-dirty after
                 // fallocate+write, delalloc, merged, shared, not-aligned): seeded per extent
